@@ -442,9 +442,18 @@ func (e *Engine) chanSend(ch *ChanObj, v Value) {
 		e.vc(e.ts.True, "send on closed channel")
 		panic(pathEnd{kind: "infeasible"})
 	}
-	if len(ch.buf) < ch.cap {
-		ch.buf = append(ch.buf, v)
-		return
+	for {
+		if e.canSend(ch) {
+			ch.buf = append(ch.buf, v)
+			return
+		}
+		if ch.closed || !e.runQueued() {
+			break
+		}
+	}
+	if ch.closed {
+		e.vc(e.ts.True, "send on closed channel")
+		panic(pathEnd{kind: "infeasible"})
 	}
 	e.block("send on full channel")
 }
@@ -453,19 +462,34 @@ func (e *Engine) chanRecv(ch *ChanObj) (Value, bool) {
 	if ch == nil || ch.never {
 		e.block("receive on nil/never channel")
 	}
-	if ch.timer != nil && len(ch.buf) == 0 && ch.timer.timerArmed {
-		e.fireTimer(ch)
-	}
-	if len(ch.buf) > 0 {
-		v := ch.buf[0]
-		ch.buf = ch.buf[1:]
-		return v, true
-	}
-	if ch.closed {
-		return e.zero(ch.elemT), false
+	for {
+		if len(ch.buf) > 0 {
+			v := ch.buf[0]
+			ch.buf = ch.buf[1:]
+			return v, true
+		}
+		if ch.closed {
+			return e.zero(ch.elemT), false
+		}
+		ch.recvWaiting++
+		ran := e.runQueued()
+		ch.recvWaiting--
+		if ran {
+			continue
+		}
+		if ch.timer != nil && ch.timer.timerArmed {
+			e.fireTimer(ch)
+			continue
+		}
+		break
 	}
 	e.block("receive on empty channel")
 	panic("unreachable")
+}
+
+// canSend: room in the buffer, or (unbuffered) the harness goroutine is parked receiving on it.
+func (e *Engine) canSend(ch *ChanObj) bool {
+	return len(ch.buf) < ch.cap || (ch.cap == 0 && ch.recvWaiting > 0 && len(ch.buf) == 0)
 }
 
 func (e *Engine) selectOp(fr *Frame, x *ssa.Select) Value {
@@ -477,24 +501,49 @@ func (e *Engine) selectOp(fr *Frame, x *ssa.Select) Value {
 	var states []st
 	var ready []int
 	var timers []int // receive cases on the channel of an armed timer that has not fired yet
-	for i, s := range x.States {
+	for _, s := range x.States {
 		ch, _ := e.get(fr, s.Chan).(*ChanObj)
 		cur := st{ch: ch, send: s.Dir == types.SendOnly}
 		if cur.send {
 			cur.val = e.get(fr, s.Send)
 		}
 		states = append(states, cur)
-		if ch == nil || ch.never {
-			continue
-		}
-		if cur.send {
-			if ch.closed || len(ch.buf) < ch.cap {
-				ready = append(ready, i)
+	}
+	for {
+		ready, timers = ready[:0], timers[:0]
+		for i, cur := range states {
+			ch := cur.ch
+			if ch == nil || ch.never {
+				continue
 			}
-		} else if len(ch.buf) > 0 || ch.closed {
-			ready = append(ready, i)
-		} else if ch.timer != nil && ch.timer.timerArmed {
-			timers = append(timers, i)
+			if cur.send {
+				if ch.closed || e.canSend(ch) {
+					ready = append(ready, i)
+				}
+			} else if len(ch.buf) > 0 || ch.closed {
+				ready = append(ready, i)
+			} else if ch.timer != nil && ch.timer.timerArmed {
+				timers = append(timers, i)
+			}
+		}
+		if len(ready) > 0 || !x.Blocking {
+			break
+		}
+		// the harness goroutine cannot proceed: queued goroutines run (it counts as a waiting
+		// receiver on the channels of its receive cases), then the cases are looked at again
+		for _, cur := range states {
+			if !cur.send && cur.ch != nil {
+				cur.ch.recvWaiting++
+			}
+		}
+		ran := e.runQueued()
+		for _, cur := range states {
+			if !cur.send && cur.ch != nil {
+				cur.ch.recvWaiting--
+			}
+		}
+		if !ran {
+			break
 		}
 	}
 	if len(ready) == 0 && x.Blocking && len(timers) > 0 {
